@@ -14,14 +14,14 @@ theorem step_decreases (s s' : S) (l : Label) (hs : step s l = some s') : mu s' 
   cases l <;> simp only [step] at hs <;> (repeat' split at hs) <;> (try cases hs) <;>
     simp_all [mu, pcRank] <;> (try split) <;> omega
 
-theorem abort_kept (s s' : S) (l : Label) (hs : step s l = some s') : s'.abort = s.abort := by
-  cases l <;> simp only [step] at hs <;> (repeat' split at hs) <;> (try cases hs) <;> rfl
+theorem abort_kept (s s' : S) (l : Label) (hs : step s l = some s') : s'.abort = s.abort ∧ s'.turnAbort = s.turnAbort := by
+  cases l <;> simp only [step] at hs <;> (repeat' split at hs) <;> (try cases hs) <;> exact ⟨rfl, rfl⟩
 
 theorem stopping_kept (s s' : S) (l : Label) (hp : s.pc ≠ .running) (hs : step s l = some s') : s'.pc ≠ .running := by
   cases l <;> simp only [step] at hs <;> (repeat' split at hs) <;> (try cases hs) <;> simp_all
 
 /-- with `abort`, a Stop that has begun and not returned can always take a step -/
-theorem progress (s : S) (h : Inv s) (ha : s.abort = true) (hp : s.pc ≠ .running) (hr : s.pc ≠ .returned) :
+theorem progress (s : S) (h : Inv s) (ha : s.abort = true) (hta : s.turnAbort = true) (hp : s.pc ≠ .running) (hr : s.pc ≠ .returned) :
     ∃ l, (step s l).isSome = true := by
   obtain ⟨h1, h2⟩ := h
   cases hpc : s.pc with
@@ -36,6 +36,7 @@ theorem progress (s : S) (h : Inv s) (ha : s.abort = true) (hp : s.pc ≠ .runni
       simp only [haf, ↓reduceIte] at hq
       cases hrd : s.rd with
       | reading => exact ⟨.readerExits, by simp [step, hrd, hq]⟩
+      | queuing => exact ⟨.queueGivesUp, by simp [step, hrd, hq, ha, hta]⟩
       | sending => exact ⟨.aborted, by simp [step, hrd, hq, ha]⟩
       | exited => exact ⟨.waited, by simp [step, hpc, haf, hrd]⟩
     | false =>
@@ -53,19 +54,20 @@ theorem progress (s : S) (h : Inv s) (ha : s.abort = true) (hp : s.pc ≠ .runni
     | false =>
       cases hrd : s.rd with
       | reading => exact ⟨.readerExits, by simp [step, hrd, hqa]⟩
+      | queuing => exact ⟨.queueGivesUp, by simp [step, hrd, hqa, ha, hta]⟩
       | sending => exact ⟨.aborted, by simp [step, hrd, hqa, ha]⟩
       | exited => exact ⟨.waited, by simp [step, hpc, haf, hrd]⟩
 
 theorem run_facts (s s' : S) (ls : List Label) (h : Inv s) (hr : run s ls = some s') :
-    Inv s' ∧ s'.abort = s.abort ∧ (s.pc ≠ .running → s'.pc ≠ .running) ∧ ls.length + mu s' ≤ mu s := by
+    Inv s' ∧ (s'.abort = s.abort ∧ s'.turnAbort = s.turnAbort) ∧ (s.pc ≠ .running → s'.pc ≠ .running) ∧ ls.length + mu s' ≤ mu s := by
   induction ls generalizing s with
-  | nil => simp only [run] at hr; cases hr; exact ⟨h, rfl, id, by simp⟩
+  | nil => simp only [run] at hr; cases hr; exact ⟨h, ⟨rfl, rfl⟩, id, by simp⟩
   | cons l ls ih =>
     simp only [run] at hr
     split at hr
     · rename_i s1 hs
       obtain ⟨a, b, c, d⟩ := ih s1 (inv_step s s1 l h hs) hr
-      refine ⟨a, by rw [b, abort_kept s s1 l hs], fun hp => c (stopping_kept s s1 l hp hs), ?_⟩
+      refine ⟨a, ⟨by rw [b.1, (abort_kept s s1 l hs).1], by rw [b.2, (abort_kept s s1 l hs).2]⟩, fun hp => c (stopping_kept s s1 l hp hs), ?_⟩
       have := step_decreases s s1 l hs
       simp only [List.length_cons]; omega
     · cases hr
